@@ -22,6 +22,7 @@ RULE = ("Limits: forms from the C01 generator (0-6 parts) x max parts in {n-1, n
         "then only CRs, CR then only LFs, CR in the middle then LF at the end, dashes only} x 0.2-2 MB (thorough 8 MB) x chunk sizes {1000, 4096, 65536} through the "
         "sync and async helpers with a recording decoder subclass and a byte-counting sink. Non-trivial = a limit exactly at or one off the total, or a bound case; "
         "distinct = (form, limits, chunk size, path).")
+RULE += ' Also: empty chunks anywhere in the chunk list, a caller-supplied sink class whose fresh instances are falsy (has __len__), decoder-state isolation after a 413.'
 ASSUMPTIONS = [
     "the bound is checked at quiescent points (NEED_DATA returned, i.e. between chunks) and at chunk borders, not in the middle of processing one chunk",
     "part header sections and the preamble are small in the workload (the statement's bound is about part contents)",
